@@ -15,7 +15,7 @@ def model_runs(ctx, calls_quick=3, calls_thorough=4):
     else:
         cfg = cfg.replace("MaxCalls = 4", "MaxCalls = %d" % calls_thorough)
     ctx.mc("HDWallet", cfg, label="2 threads, full + watch-only wallet, generators, scramble: all histories up to the call bound",
-           timeout=3000)
+           timeout=3000 if ctx.quick else 20000)
     # action labels from a reduced instance (the labelled graph of the full model is large)
     small = core.cfg_of("HDWallet.cfg").replace("MaxCalls = 4", "MaxCalls = 2").replace('Threads = {"t1", "t2"}', 'Threads = {"t1"}')
     ctx.mc("HDWallet", small, coverage=True, label="action-label run (1 thread, 3 calls)")
